@@ -135,7 +135,264 @@ Lemma src_export_validate_nil url_of (vr : list go_issue) a b c d f g h i j k :
   V2.Export_Validate a b c d f g h i j k true vr = vr ++ map goi (v_export url_of None).
 Proof. reflexivity. Qed.
 
+
+(* ---------- isContainedIn (the overlap scan behind Exports.Validate) and Exports.Validate ----------
+   The scan: every ordered pair of different positions; a subject that contains another one is entered, once, into a Go
+   map keyed by it; one blocking issue per key.  The map is read as an association list in insertion order (the final
+   range appends the same issue for every key, whatever the order).  Proved: the issues appended are exactly the
+   model's [v_overlaps] - as many as there are DISTINCT subjects containing the subject of another position. *)
+From JWT Require Gen.SrcSubject Proofs.SrcSubject.
+From Coq Require Import Permutation.
+
+Lemma sv_contained s o : V2.Subject_IsContainedIn s o = is_contained_in s o.
+Proof. exact (SrcSubject.src_is_contained_in s o). Qed.
+
+Fixpoint zindexed {A} (i : Z) (l : list A) : list (Z * A) :=
+  match l with [] => [] | x :: r => (i, x) :: zindexed (i + 1) r end.
+Lemma range_cont {A S R} (f : Z -> A -> S -> S) : forall (l : list A) (i : Z) (st : S),
+  go_range (R:=R) (fun i x st => Cont (f i x st)) i l st = inl (fold_left (fun st ix => f (fst ix) (snd ix) st) (zindexed i l) st).
+Proof. induction l as [|x l IH]; intros i st; [reflexivity|]. cbn [go_range zindexed fold_left fst snd]. apply IH. Qed.
+
+Definition keys {V} (m : list (string * V)) : list string := map fst m.
+Lemma plookup_none {V} (m : list (string * V)) k : go_plookup m k = None <-> ~ In k (keys m).
+Proof.
+  induction m as [|[k' v] m IH]; cbn [go_plookup keys map fst In]; [tauto|].
+  destruct (String.eqb_spec k' k) as [->|Hne]; [split; [discriminate|intros H; exfalso; apply H; now left]|].
+  rewrite IH. unfold keys. split; [intros H [E|Hin]; [congruence|tauto]|tauto].
+Qed.
+Lemma pset_fresh {V} (m : list (string * V)) k v : ~ In k (keys m) -> go_pset m k v = m ++ [(k, v)].
+Proof.
+  induction m as [|[k' v'] m IH]; intros Hn; [reflexivity|]. cbn [go_pset keys map fst In app] in *.
+  destruct (String.eqb_spec k' k) as [->|Hne]; [exfalso; apply Hn; now left|]. rewrite IH; [reflexivity|tauto].
+Qed.
+Lemma nodup_snoc {A} (l : list A) (x : A) : NoDup l -> ~ In x l -> NoDup (l ++ [x]).
+Proof.
+  induction l as [|y l IH]; intros Hn Hx; cbn [app]; [constructor; [intros []|constructor]|].
+  inversion Hn; subst. constructor.
+  - rewrite in_app_iff. cbn [In]. intros [H|[->|[]]]; [contradiction|apply Hx; now left].
+  - apply IH; [assumption|]. intros H. apply Hx. now right.
+Qed.
+
+(* one inner step, one inner loop, the outer loop - as functions *)
+Definition ovl_step (i : Z) (ns : string) (j : Z) (s : string) (m : list (string * string)) : list (string * string) :=
+  if (i =? j)%Z then m
+  else if is_contained_in ns s then (if existsb (String.eqb s) (keys m) then m else m ++ [(s, ns)]) else m.
+
+Lemma existsb_keys {V} (m : list (string * V)) s : existsb (String.eqb s) (keys m) = true <-> In s (keys m).
+Proof.
+  rewrite existsb_exists. split; [intros [x [Hin E]]; apply String.eqb_eq in E; now subst|].
+  intros H; exists s; split; [exact H|apply String.eqb_refl].
+Qed.
+
+Lemma ovl_step_src i ns j s m :
+  (if (i =? j)%Z then m
+   else (if V2.Subject_IsContainedIn ns s
+         then let '(_, ok) := go_pget "" m s in (if negb ok then go_pset m s ns else m)
+         else m)) = ovl_step i ns j s m.
+Proof.
+  unfold ovl_step. destruct (i =? j)%Z; [reflexivity|]. rewrite sv_contained. destruct (is_contained_in ns s); [|reflexivity].
+  unfold go_pget. destruct (go_plookup m s) as [v|] eqn:E; cbn [negb].
+  - assert (Hin : In s (keys m)). { destruct (in_dec string_dec s (keys m)) as [H|H]; [exact H|]. apply plookup_none in H. congruence. }
+    apply existsb_keys in Hin. rewrite Hin. reflexivity.
+  - apply plookup_none in E. rewrite pset_fresh by exact E.
+    destruct (existsb (String.eqb s) (keys m)) eqn:Ee; [apply existsb_keys in Ee; contradiction|reflexivity].
+Qed.
+
+(* the key set after a fold of steps that each add at most the keys [Q x] *)
+Lemma fold_keys {X} (step : list (string * string) -> X -> list (string * string)) (Q : X -> string -> Prop) :
+  (forall m x, NoDup (keys m) -> NoDup (keys (step m x))) ->
+  (forall m x k, NoDup (keys m) -> (In k (keys (step m x)) <-> In k (keys m) \/ Q x k)) ->
+  forall (l : list X) (m : list (string * string)), NoDup (keys m) ->
+    NoDup (keys (fold_left step l m)) /\ (forall k, In k (keys (fold_left step l m)) <-> In k (keys m) \/ exists x, In x l /\ Q x k).
+Proof.
+  intros Hnd Hin. induction l as [|x l IH]; intros m Hm; cbn [fold_left].
+  - split; [exact Hm|]. intros k. split; [tauto|]. intros [H|[x [[] _]]]; exact H.
+  - destruct (IH (step m x) (Hnd m x Hm)) as [N I]. split; [exact N|]. intros k. rewrite I, (Hin m x k Hm). split.
+    + intros [[H|H]|[y [Hy Hq]]]; [left; exact H|right; exists x; split; [now left|exact H]|right; exists y; split; [now right|exact Hq]].
+    + intros [H|[y [[->|Hy] Hq]]]; [left; left; exact H|left; right; exact Hq|right; exists y; split; assumption].
+Qed.
+
+Lemma keys_app {V} (m : list (string * V)) k v : keys (m ++ [(k, v)]) = keys m ++ [k].
+Proof. unfold keys. rewrite map_app. reflexivity. Qed.
+
+Lemma ovl_step_nodup i ns j s m : NoDup (keys m) -> NoDup (keys (ovl_step i ns j s m)).
+Proof.
+  intros H. unfold ovl_step. destruct (i =? j)%Z; [exact H|]. destruct (is_contained_in ns s); [|exact H].
+  destruct (existsb (String.eqb s) (keys m)) eqn:E; [exact H|]. rewrite keys_app.
+  apply nodup_snoc; [exact H|]. intros Hin. apply existsb_keys in Hin. congruence.
+Qed.
+Lemma ovl_step_in i ns j s m k :
+  In k (keys (ovl_step i ns j s m)) <-> In k (keys m) \/ ((i =? j)%Z = false /\ is_contained_in ns s = true /\ k = s).
+Proof.
+  unfold ovl_step. destruct (i =? j)%Z; [split; [tauto|intros [H|[H _]]; [exact H|discriminate]]|].
+  destruct (is_contained_in ns s); [|split; [tauto|intros [H|[_ [H _]]]; [exact H|discriminate]]].
+  destruct (existsb (String.eqb s) (keys m)) eqn:E.
+  - apply existsb_keys in E. split; [tauto|intros [H|[_ [_ ->]]]; assumption].
+  - rewrite keys_app, in_app_iff. cbn [In]. split; [intros [H|[<-|[]]]; [now left|right; auto]|intros [H|[_ [_ ->]]]; [now left|right; now left]].
+Qed.
+
+Definition in_body (i : Z) (ns : string) : Z -> string -> list (string * string) -> ctl (list (string * string)) (list go_issue) :=
+  fun (j : Z) (s : string) (go_st : list (string * string)) =>
+    let m := go_st in
+    if (i =? j)%Z then Cont m
+    else let m := (if V2.Subject_IsContainedIn ns s
+                   then let str := s in let '(_, ok) := go_pget "" m str in let m := (if negb ok then go_pset m str ns else m) in m
+                   else m) in Cont m.
+Definition out_body (subjects : list string) : Z -> string -> list (string * string) -> ctl (list (string * string)) (list go_issue) :=
+  fun (i : Z) (ns : string) (go_st : list (string * string)) =>
+    match go_range (in_body i ns) 0%Z subjects go_st with inr r => Ret r | inl st => Cont st end.
+
+Definition ovl_inner (subjects : list string) (i : Z) (ns : string) (m : list (string * string)) :=
+  fold_left (fun m js => ovl_step i ns (fst js) (snd js) m) (zindexed 0 subjects) m.
+Definition ovl_outer (subjects : list string) (m : list (string * string)) :=
+  fold_left (fun m ins => ovl_inner subjects (fst ins) (snd ins) m) (zindexed 0 subjects) m.
+
+Lemma in_loop i ns : forall (l : list string) (j : Z) (m : list (string * string)),
+  go_range (in_body i ns) j l m = inl (fold_left (fun m js => ovl_step i ns (fst js) (snd js) m) (zindexed j l) m).
+Proof.
+  induction l as [|s l IH]; intros j m; [reflexivity|].
+  cbn [go_range zindexed fold_left fst snd]. unfold in_body at 1. cbv zeta.
+  pose proof (ovl_step_src i ns j s m) as Hs.
+  destruct (i =? j)%Z; [rewrite <- Hs; apply IH|]. rewrite Hs. apply IH.
+Qed.
+Lemma out_loop subjects : forall (l : list string) (i : Z) (m : list (string * string)),
+  go_range (out_body subjects) i l m = inl (fold_left (fun m ins => ovl_inner subjects (fst ins) (snd ins) m) (zindexed i l) m).
+Proof.
+  induction l as [|ns l IH]; intros i m; [reflexivity|].
+  cbn [go_range zindexed fold_left fst snd]. unfold out_body at 1. rewrite in_loop. apply IH.
+Qed.
+
+(* the keys the scan ends with *)
+Definition ovl_pairs (subjects : list string) (k : string) : Prop :=
+  exists ins js, In ins (zindexed 0 subjects) /\ In js (zindexed 0 subjects) /\
+                 (fst ins =? fst js)%Z = false /\ is_contained_in (snd ins) (snd js) = true /\ k = snd js.
+Lemma ovl_inner_keys subjects i ns m : NoDup (keys m) ->
+  NoDup (keys (ovl_inner subjects i ns m)) /\
+  forall k, In k (keys (ovl_inner subjects i ns m)) <-> In k (keys m) \/
+            exists js, In js (zindexed 0 subjects) /\ ((i =? fst js)%Z = false /\ is_contained_in ns (snd js) = true /\ k = snd js).
+Proof.
+  intros Hm. unfold ovl_inner.
+  apply (fold_keys (fun m js => ovl_step i ns (fst js) (snd js) m)
+                   (fun js k => (i =? fst js)%Z = false /\ is_contained_in ns (snd js) = true /\ k = snd js)); [| |exact Hm].
+  - intros m0 x H. apply ovl_step_nodup. exact H.
+  - intros m0 x k _. apply ovl_step_in.
+Qed.
+Lemma ovl_outer_keys subjects :
+  NoDup (keys (ovl_outer subjects [])) /\ forall k, In k (keys (ovl_outer subjects [])) <-> ovl_pairs subjects k.
+Proof.
+  unfold ovl_outer.
+  destruct (fold_keys (fun m ins => ovl_inner subjects (fst ins) (snd ins) m)
+              (fun ins k => exists js, In js (zindexed 0 subjects) /\ ((fst ins =? fst js)%Z = false /\ is_contained_in (snd ins) (snd js) = true /\ k = snd js))
+              (fun m x H => proj1 (ovl_inner_keys subjects (fst x) (snd x) m H))
+              (fun m x k H => proj2 (ovl_inner_keys subjects (fst x) (snd x) m H) k)
+              (zindexed 0 subjects) [] (NoDup_nil _)) as [N I].
+  split; [exact N|]. intros k. rewrite I. unfold ovl_pairs. cbn [keys map In]. split.
+  - intros [[]|[ins [Hi [js [Hj H]]]]]. exists ins, js. tauto.
+  - intros [ins [js [Hi [Hj H]]]]. right. exists ins. split; [exact Hi|]. exists js. tauto.
+Qed.
+
+(* the model's [containers] holds the same subjects, each once *)
+Lemma dedup_in (l : list string) k : In k (dedup l) <-> In k l.
+Proof.
+  induction l as [|x l IH]; [reflexivity|]. cbn [dedup].
+  destruct (existsb (fun y => (y =? x)%string) l) eqn:E.
+  - rewrite IH. cbn [In]. split; [tauto|]. intros [<-|H]; [|exact H].
+    apply existsb_exists in E. destruct E as [y [Hy Ey]]. apply String.eqb_eq in Ey. now subst.
+  - cbn [In]. rewrite IH. tauto.
+Qed.
+Lemma dedup_nodup (l : list string) : NoDup (dedup l).
+Proof.
+  induction l as [|x l IH]; [constructor|]. cbn [dedup].
+  destruct (existsb (fun y => (y =? x)%string) l) eqn:E; [exact IH|]. constructor; [|exact IH].
+  rewrite dedup_in. intros Hin. assert (existsb (fun y => (y =? x)%string) l = true); [|congruence].
+  apply existsb_exists. exists x. split; [exact Hin|apply String.eqb_refl].
+Qed.
+Lemma zindexed_indexed {A} : forall (l : list A) (n : nat),
+  zindexed (Z.of_nat n) l = map (fun p => (Z.of_nat (fst p), snd p)) (combine (seq n (List.length l)) l).
+Proof.
+  induction l as [|x l IH]; intros n; [reflexivity|]. cbn [zindexed List.length seq combine map fst snd].
+  replace (Z.of_nat n + 1)%Z with (Z.of_nat (S n)) by lia. rewrite IH. reflexivity.
+Qed.
+Lemma containers_in subjects k : In k (containers subjects) <-> ovl_pairs subjects k.
+Proof.
+  unfold containers, ovl_pairs. cbv zeta. rewrite dedup_in, in_map_iff.
+  change 0%Z with (Z.of_nat 0). rewrite (zindexed_indexed subjects 0). fold (indexed subjects). split.
+  - intros [js [Hk Hf]]. apply filter_In in Hf. destruct Hf as [Hj He]. apply existsb_exists in He.
+    destruct He as [ins [Hi Hc]]. apply andb_true_iff in Hc. destruct Hc as [Hne Hc].
+    exists (Z.of_nat (fst ins), snd ins), (Z.of_nat (fst js), snd js). cbn [fst snd].
+    repeat split; try (apply in_map_iff; eexists; split; [reflexivity|eassumption]); [|exact Hc|now symmetry].
+    apply Z.eqb_neq. intros E. apply Nat2Z.inj in E. apply negb_true_iff, Nat.eqb_neq in Hne. contradiction.
+  - intros [ins' [js' [Hi [Hj [Hne [Hc ->]]]]]]. apply in_map_iff in Hi. apply in_map_iff in Hj.
+    destruct Hi as [ins [<- Hi]]. destruct Hj as [js [<- Hj]]. cbn [fst snd] in *.
+    exists js. split; [reflexivity|]. apply filter_In. split; [exact Hj|]. apply existsb_exists. exists ins. split; [exact Hi|].
+    apply andb_true_iff. split; [|exact Hc]. apply negb_true_iff, Nat.eqb_neq. intros E. rewrite E in Hne. rewrite Z.eqb_refl in Hne. discriminate.
+Qed.
+Lemma containers_count subjects : List.length (ovl_outer subjects []) = List.length (containers subjects).
+Proof.
+  destruct (ovl_outer_keys subjects) as [N I].
+  replace (List.length (ovl_outer subjects [])) with (List.length (keys (ovl_outer subjects []))) by (unfold keys; apply map_length).
+  apply Permutation_length. apply NoDup_Permutation; [exact N|apply dedup_nodup|].
+  intros k. rewrite I, containers_in. reflexivity.
+Qed.
+
+(* the final range: one blocking issue per key *)
+Lemma issue_loop {R} (body : Z -> string * string -> list go_issue -> ctl (list go_issue) R) :
+  (forall i e vr, body i e vr = Cont (vr ++ [GoError])) ->
+  forall (m : list (string * string)) (i : Z) (vr : list go_issue),
+    go_range body i m vr = inl (vr ++ repeat GoError (List.length m)).
+Proof.
+  intros Hb. induction m as [|e m IH]; intros i vr; [cbn; now rewrite app_nil_r|].
+  cbn [go_range]. rewrite Hb, IH. cbn [List.length repeat]. rewrite <- app_assoc. reflexivity.
+Qed.
+
+Lemma src_overlaps (kind : Z) (subjects : list string) (vr : list go_issue) :
+  V2.isContainedIn kind subjects vr = vr ++ map goi (v_overlaps subjects).
+Proof.
+  unfold V2.isContainedIn. cbv zeta.
+  match goal with |- context [go_range ?B 0%Z subjects []] => change B with (out_body subjects) end.
+  rewrite out_loop. fold (ovl_outer subjects []).
+  assert (Hm : map goi (v_overlaps subjects) = repeat GoError (List.length (ovl_outer subjects []))).
+  { rewrite containers_count. unfold v_overlaps. induction (containers subjects) as [|x l IH]; [reflexivity|]. cbn [map List.length repeat goi]. now rewrite IH. }
+  rewrite Hm. unfold go_llen.
+  destruct (ovl_outer subjects []) as [|e m] eqn:E; [cbn; now rewrite app_nil_r|].
+  cbn [negb Z.eqb List.length Z.of_nat]. rewrite issue_loop; [reflexivity|].
+  intros i [k v] vr0. reflexivity.
+Qed.
+
+(* Exports.Validate: every entry validated (a null one is an error), the subjects collected by kind, the two scans *)
+Definition o_exp {A} (f : export -> A) (d : A) (o : option export) : A := match o with Some e => f e | None => d end.
+Definition src_exports_validate url_of (l : list (option export)) (vr : list go_issue) : list go_issue :=
+  V2.Exports_Validate (option export) None (o_exp ex_atp 0%Z) (o_exp ex_allow_trace false)
+    (o_exp (fun e => map goi (v_info url_of (ex_desc e) (ex_url e))) [])
+    (o_exp (fun e => lat_results (lat_or_zero (ex_latency e))) "") (o_exp (fun e => lat_sampling (lat_or_zero (ex_latency e))) 0%Z)
+    (o_exp (fun e => is_none (ex_latency e)) true) (o_exp ex_threshold 0%Z) (o_exp ex_response_type "") (o_exp ex_subject "")
+    (o_exp ex_type 0%Z) (o_exp (fun _ => false) true) l vr.
+
+Definition svc_subjects (l : list (option export)) : list string :=
+  flat_map (fun oe => match oe with Some e => if is_service (ex_type e) then [ex_subject e] else [] | None => [] end) l.
+Definition str_subjects (l : list (option export)) : list string :=
+  flat_map (fun oe => match oe with Some e => if is_service (ex_type e) then [] else [ex_subject e] | None => [] end) l.
+
+Lemma src_exports url_of (l : list (option export)) (vr : list go_issue) :
+  src_exports_validate url_of l vr = vr ++ map goi (v_exports url_of l).
+Proof.
+  unfold src_exports_validate, V2.Exports_Validate, v_exports. cbv zeta.
+  match goal with |- context [go_range ?B 0%Z l _] => set (body := B) end.
+  assert (Hloop : forall (l : list (option export)) (i : Z) (vr : list go_issue) (sv st : list string),
+            go_range body i l (vr, sv, st) = inl (vr ++ map goi (flat_map (v_export url_of) l), sv ++ svc_subjects l, st ++ str_subjects l)).
+  { clear l vr. induction l as [|oe l IH]; intros i vr sv st; [cbn; now rewrite !app_nil_r|].
+    cbn [go_range]. unfold body at 1. cbv beta zeta. destruct oe as [e|]; cbn [o_exp].
+    - rewrite (src_export_validate url_of e vr). change (V2.Export_IsService (ex_type e)) with (is_service (ex_type e)).
+      destruct (is_service (ex_type e)) eqn:Es; rewrite IH; cbn [flat_map svc_subjects str_subjects]; rewrite Es;
+        cbn [app]; rewrite ?map_app, <- ?app_assoc, ?app_nil_r; reflexivity.
+    - rewrite IH. cbn [flat_map svc_subjects str_subjects v_export map goi app]. rewrite <- !app_assoc. reflexivity. }
+  rewrite Hloop. cbn [app]. rewrite !src_overlaps. fold (svc_subjects l). fold (str_subjects l).
+  rewrite !map_app, <- !app_assoc. reflexivity.
+Qed.
+
 Print Assumptions src_claims_data_validate.
 Print Assumptions src_subject_validate.
 Print Assumptions src_latency_validate.
 Print Assumptions src_export_validate.
+Print Assumptions src_overlaps.
+Print Assumptions src_exports.
